@@ -236,11 +236,12 @@ open RsslVerif.Gen.SlotCompile RsslVerif.Model.SlotsCompile RsslVerif.Lemmas.Slo
 
 /-- Tie to the source: `compile()` keeps one immutable type-checked module, `build_pipeline` takes no state shared
     between pipelines, clones the unbound module, selects the pipeline by name and calls `assign_api_bindings`
-    unconditionally; the exporters read that bound module and list bound root definitions in order, grouped by set
-    (28 comparisons with the comment-stripped, whitespace-normalised current source). -/
+    unconditionally; the allocator never reads a language-level slot index; an explicit group is the register space or the
+    overriding attribute and a pipeline's default group is its DefaultBindGroup property (0 if absent); the exporters read that bound module and list bound root definitions in order, grouped by set
+    (32 comparisons with the comment-stripped, whitespace-normalised current source). -/
 theorem compile_shape_as_modelled :
-    compileShape = ⟨true, true, true, true, true, true, true, true, true, true, true, true, true, true,
-                    true, true, true, true, true, true, true, true, true, true, true, true, true, true⟩ := by decide
+    compileShape = ⟨true, true, true, true, true, true, true, true, true, true, true, true, true, true, true, true,
+                    true, true, true, true, true, true, true, true, true, true, true, true, true, true, true, true⟩ := by decide
 
 /-- **Per-pipeline default group.**  For every module the type checker can hand to `compile()` (any declaration
     sequence, any list of pipelines) and every argument set: the call returns one result per requested pipeline
